@@ -334,6 +334,9 @@ def rule_reader_order(ctx, rid, V):
     ctx.check(inc[0].bb in dom[lds[0].bb] and inc[0].bb != lds[0].bb, rid, key,
               "reader increments its slot counter before it loads the snapshot pointer (HalfLock<%s>)" % T, lds[0].sp,
               {"increment": inc[0].sp, "pointer_load": lds[0].sp, "problem": "the increment does not dominate the load"})
+    amt = [fold(e) for e in flow(nm).term_arg(inc[0].bb, 1)]
+    ctx.check(amt == [1], rid, "increment-by-one:%s" % T, "the reader counts itself once (increment by the constant 1, matching the guard's decrement)", inc[0].sp,
+              {"amount": amt, "why": "an increment the guard's decrement does not undo leaves the counter above zero for ever: every later writer spins"})
     (abb, asi, rv) = adt_constructions(nm, RG)[0]
     fl = flow(nm)
     fields = rv["fields"]
@@ -764,3 +767,133 @@ def rule_exit_needs_all(ctx, rid, V):
     ctx.check(not bad, rid, "idle-flag-false-keeps-waiting:%s" % T.split("::")[-1],
               "a reader slot not yet seen idle keeps the writer waiting: from the false outcome of each of the %d test(s) of a seen-idle flag the old "
               "snapshot's free is out of reach until the slots are sampled again" % len(tests), m.span, bad)
+
+
+def rule_slots_start_zero(ctx, rid, V):
+    """the reader counters start at zero (a lock constructed with a non-zero counter can never be written to: the barrier waits for a reader
+    that does not exist)"""
+    F = ctx.F; R = V.R; T = V.T
+    n_sites = 0; bad = []
+    for r in V.roots:
+        nr = V.n[r.id]
+        fl = flow(nr)
+        for bb, bl in enumerate(nr.blocks):
+            if bl.get("dead") or bl.get("cleanup"):
+                continue
+            for si, st in enumerate(bl["s"]):
+                if st["k"] != "assign" or st["l"]["p"] or not re.match(r"^\[core::sync::atomic::Atomic<usize>; \d+\]$", nr.local_ty(st["l"]["l"])):
+                    continue
+                rr = st["r"]
+                ops = rr.get("ops") if rr["k"] == "aggregate" else ([rr["o"]] if rr["k"] == "repeat" else None)
+                if ops is None:
+                    continue
+                n_sites += 1
+                for o in ops:
+                    for e in fl.operand(o, (bb, si)):
+                        e = deep_strip(e)
+                        okk = False
+                        if e[0] == "call":
+                            df = nr.term(e[1]).get("def") or ""
+                            if df.endswith("::default") or df.endswith("Default::default"):
+                                okk = True
+                            elif re.search(r"atomic::Atomic::<usize>::new$", df):
+                                okk = [fold(a) for a in fl.term_arg(e[1], 0)] == [0]
+                        elif e[0] == "const":
+                            okk = fold(e) == 0 or "new(0" in str(e) or "{transmute(0x0" in str(e)
+                        if not okk:
+                            bad.append({"where": st["sp"], "initial": show(e)[:120]})
+    ctx.check(not bad, rid, "slots-start-zero:%s" % T.split("::")[-1], "the reader counters are constructed as zero (%d construction site(s) of the slot array)" % n_sites,
+              None, bad)
+
+
+def rule_flag_means_idle(ctx, rid, V):
+    """a "slot seen idle" flag is raised only on an observed zero: every value written into the wait's bool bookkeeping is the constant false, the
+    flag's own previous value, the comparison `slot load == 0` — or the constant true on the true side of such a comparison. (`!= 0` records
+    busy slots as idle: the barrier leaves while readers hold the old snapshot.)"""
+    F = ctx.F; R = V.R; T = V.T
+    m, nm0, s0 = V.swapper()
+    nm = inline.cached(F, m, tag="full-hof", hof=True, thread=True)
+    fl = flow(nm)
+    loads = {sl.bb for (sl, c) in slot_loads(F, nm, R) if c is None}
+    if not loads:
+        raise AnchorLost("HalfLock<%s>: direct loads of the reader slots in the swapping writer's normal form (combinators opened)" % T)
+    from ..conds import facts_at, truth
+
+    def is_idle_cmp(e):
+        """+1: `load == 0` / -1: `load != 0` / None"""
+        e = deep_strip(e)
+        if e[0] == "binop" and e[1] in ("Eq", "Ne"):
+            a, b = deep_strip(e[2]), deep_strip(e[3])
+            for x, y in ((a, b), (b, a)):
+                if x[0] == "call" and x[1] in loads and fold(y) == 0:
+                    return 1 if e[1] == "Eq" else -1
+        return None
+    n = 0; bad = []
+    for bb, bl in enumerate(nm.blocks):
+        if bl.get("dead") or bl.get("cleanup"):
+            continue
+        for si, st in enumerate(bl["s"]):
+            if st["k"] != "assign" or not st["l"]["p"] or st["l"]["p"][0]["k"] != "deref" or len(st["l"]["p"]) != 1:
+                continue
+            if nm.local_ty(st["l"]["l"]) not in ("&mut bool", "*mut bool"):
+                continue
+            n += 1
+            rr = st["r"]
+            exprs = fl.operand(rr["o"], (bb, si)) if rr["k"] == "use" else None
+            if exprs is None:
+                if rr["k"] == "binop" and rr.get("op") in ("Eq", "Ne", "BitOr", "BitAnd"):
+                    exprs = [("binop", rr["op"], a_, b_) for a_ in fl.operand(rr["a"], (bb, si)) for b_ in fl.operand(rr["b"], (bb, si))]
+                else:
+                    bad.append({"where": st["sp"], "value": rr["k"]}); continue
+            for e in exprs:
+                e = deep_strip(e)
+                c = is_idle_cmp(e)
+                if c == 1:
+                    continue
+                if c == -1:
+                    bad.append({"where": st["sp"], "value": show(e)[:100], "why": "records a busy slot as idle"}); continue
+                if e[0] == "binop" and e[1] in ("BitOr",):
+                    parts = [deep_strip(e[2]), deep_strip(e[3])]
+                    if all(is_idle_cmp(p_) == 1 or p_[0] == "deref" or fold(p_) == 0 for p_ in parts):
+                        continue
+                    bad.append({"where": st["sp"], "value": show(e)[:100]}); continue
+                v = fold(e)
+                if v == 0 or e[0] == "deref":
+                    continue        # false, or the flag's previous value
+                if v == 1:
+                    # constant true: only under an observed zero, or under the flag itself being true already — judged where the constant is
+                    # produced (`*seen || ..` assigns it on the flag's true side and stores it after the join)
+                    def const_sites(local, at, d=0):
+                        out = []
+                        for site in fl.reaching(local, at):
+                            if site[0] == "entry" or d > 5:
+                                out.append(None); continue
+                            sb2, si2 = site
+                            bl2 = nm.blocks[sb2]
+                            st2 = bl2["s"][si2] if si2 < len(bl2["s"]) else None
+                            if st2 and st2["k"] == "assign" and st2["r"]["k"] == "use" and st2["r"]["o"]["k"] == "const":
+                                if st2["r"]["o"]["c"].get("val") == 1:
+                                    out.append(sb2)
+                            elif st2 and st2["k"] == "assign" and st2["r"]["k"] == "use" and st2["r"]["o"]["k"] in ("copy", "move") and not st2["r"]["o"]["p"]["p"]:
+                                out += const_sites(st2["r"]["o"]["p"]["l"], (sb2, si2), d + 1)
+                        return out
+                    where = [bb]
+                    if rr["k"] == "use" and rr["o"]["k"] in ("copy", "move") and not rr["o"]["p"]["p"]:
+                        where = const_sites(rr["o"]["p"]["l"], (bb, si)) or [bb]
+                    okk = True
+                    for wb in where:
+                        one = False
+                        for (ce, inf, sb) in (facts_at(nm, wb, unwind=False) if wb is not None else []):
+                            c2 = is_idle_cmp(ce)
+                            tv = truth(inf)
+                            if (c2 == 1 and tv is True) or (c2 == -1 and tv is False):
+                                one = True
+                            if ce[0] == "deref" and tv is True:
+                                one = True
+                        okk = okk and one
+                    if okk:
+                        continue
+                    bad.append({"where": st["sp"], "value": "true", "why": "set without an observed zero of a reader slot on this path"}); continue
+                bad.append({"where": st["sp"], "value": show(e)[:100]})
+    ctx.check(not bad, rid, "flag-set-only-on-zero:%s" % T.split("::")[-1],
+              "the wait's seen-idle flags are raised only when a reader slot was read as 0 (%d write(s) through a bool reference in the swapping writer)" % n, m.span, bad)
